@@ -394,7 +394,7 @@ func main() {
 			nDet = 2000
 		}
 	}
-	detPairs, detMismatch, detProcsDependent := 0, 0, 0
+	detPairs, detMismatch, detProcsDependent, detLogOnly := 0, 0, 0, 0
 	if nDet > 0 {
 		var idx []int
 		for i := 0; i < nDet; i++ {
@@ -447,12 +447,29 @@ func main() {
 				for k, v := range res[0].s.Determinism {
 					detPairs++
 					// hard requirement: two processes with the same GOMAXPROCS agree
+					verdict := func(d string) string {
+						if i := strings.Index(d, "#"); i >= 0 {
+							return d[:i]
+						}
+						return d
+					}
+					logDiffers := false
 					for j := 0; j < 3; j++ {
-						if res[j].s.Determinism[k] != res[j+3].s.Determinism[k] {
+						a, b := res[j].s.Determinism[k], res[j+3].s.Determinism[k]
+						if verdict(a) != verdict(b) {
 							detMismatch++
-							fmt.Printf("simdrv: DETERMINISM MISMATCH run index %s between two processes at the same GOMAXPROCS: %q / %q\n", k, res[j].s.Determinism[k], res[j+3].s.Determinism[k])
+							fmt.Printf("simdrv: DETERMINISM MISMATCH run index %s between two processes at the same GOMAXPROCS: %q / %q\n", k, a, b)
+							logDiffers = false
 							break
 						}
+						if a != b {
+							logDiffers = true
+						}
+					}
+					if logDiffers {
+						// same verdict, different event log: the code under test is itself
+						// nondeterministic (it ranges over a map in instrumented code, say)
+						detLogOnly++
 					}
 					// across GOMAXPROCS values the logs agree unless the code under test itself
 					// reads GOMAXPROCS (e.g. to size a worker pool): reported, not a failure
@@ -467,7 +484,10 @@ func main() {
 			die(2, "determinism self-test could not run: %v", firstErr)
 		}
 		if detMismatch > 0 {
-			die(2, "determinism self-test: %d of %d seeds differ between two processes with the same GOMAXPROCS - nothing this run reports can be trusted", detMismatch, detPairs)
+			die(2, "determinism self-test: %d of %d seeds reach different verdicts in two processes with the same GOMAXPROCS - nothing this run reports can be trusted", detMismatch, detPairs)
+		}
+		if detLogOnly > 0 {
+			fmt.Printf("simdrv: note: for %d of %d seeds two identical processes reached the same verdict through different event logs: the code under test is nondeterministic in itself (e.g. it ranges over a map inside instrumented code); replay files of this tree may not reproduce step by step\n", detLogOnly, detPairs)
 		}
 		if detProcsDependent > 0 {
 			fmt.Printf("simdrv: determinism self-test ok (%d seeds x 6 processes: identical event logs for equal GOMAXPROCS; %d seeds differ ACROSS GOMAXPROCS 1/4/16, i.e. the code under test depends on GOMAXPROCS itself) at %.1fs\n", detPairs, detProcsDependent, time.Since(start).Seconds())
